@@ -50,6 +50,8 @@ impl<'a> BinDecoder<'a> {
 
     /// Pop one byte from the buffer
     pub fn pop(&mut self) -> Result<Restrict<u8>, DecodeError> {
+        #[cfg(feature = "verif-hooks")]
+        crate::verif::tick();
         if let Some((first, remaining)) = self.remaining.split_first() {
             self.remaining = remaining;
             return Ok(Restrict::new(*first));
@@ -143,6 +145,8 @@ impl<'a> BinDecoder<'a> {
     ///
     /// The slice of the specified length, otherwise an error
     pub fn read_slice(&mut self, len: usize) -> Result<Restrict<&'a [u8]>, DecodeError> {
+        #[cfg(feature = "verif-hooks")]
+        crate::verif::tick();
         if len > self.remaining.len() {
             return Err(DecodeError::InsufficientBytes);
         }
